@@ -105,6 +105,9 @@ verif_proof! { [C41]
                 assert!(EVER_QUEUED[k] || (PROCESSED[k] == 0 && COMPLETED[k] == 0), "[C41] the worker touched a frame that was never queued for enrichment");
                 // each dequeue is processed and completed once: completions never exceed processings
                 assert!(COMPLETED[k] <= PROCESSED[k], "[C41] a frame was marked complete more often than it was processed");
+                // a task that was processed must also be taken out of the queue before the worker exits:
+                // otherwise the frame is enriched but still queued, and the next run enriches it again
+                assert!(COMPLETED[k] == PROCESSED[k], "[C41] the worker exited with a processed task still in the queue (the frame would be enriched twice)");
                 k += 1;
             }
             assert!(WORK_SINCE_CKPT == 0, "[C41] the worker stopped with completed work that was never checkpointed");
